@@ -89,9 +89,27 @@ def ocsH : Handler := fun j => do
   let s ← schedOfJson (← field j "s")
   return jExcept Json.bool (isOutputChannelStationary (← nat (← field j "ch")) t s)
 
+/-- args: {"bounds": [int], "ops": [...]} -> {"accepted": schedule} | {"raised": "ValueError"} -/
+def constructH : Handler := fun j => do
+  let bounds ← listOf int (← field j "bounds")
+  let ops ← listOf operandOfJson (← field j "ops")
+  if ops.any (fun o => o.rows.length != o.b.length) then throw "operand: A and b disagree on the number of rows"
+  return jExcept (fun s => Json.mkObj [("accepted", schedToJson s)]) (construct bounds ops)
+
+/-- args: {"t", "s", "sizes", "fuel"} -> schedule | {"raised": ..} (empty generator = StopIteration) -/
+def autoflowH : Handler := fun j => do
+  let t ← tmplOfJson (← field j "t")
+  let s ← schedOfJson (← field j "s")
+  let sizes ← listOf nat (← field j "sizes")
+  if sizes.any (· == 0) then throw "element size 0"
+  match autoflow sizes t (← nat (← field j "fuel")) s with
+  | .error e => return Json.mkObj [("raised", Json.str (errName e))]
+  | .ok none => return Json.mkObj [("raised", Json.str "StopIteration")]
+  | .ok (some r) => return schedToJson r
+
 def handlers : List (String × Handler) :=
   [("c03.rotate", rotateH), ("c03.tile", tileH), ("c03.add_dim", addDimH), ("c03.clear", clearH),
-   ("c03.canon", canonH), ("c03.inner", innerH), ("c03.image", imageH), ("c03.backtrack", backtrackH),
+   ("c03.canon", canonH), ("c03.construct", constructH), ("c03.autoflow", autoflowH), ("c03.inner", innerH), ("c03.image", imageH), ("c03.backtrack", backtrackH),
    ("c16.matches", matchesH), ("c16.same_space", sameSpaceH), ("c16.check", checkH), ("c16.ocs", ocsH)]
 
 end SnaxVerif.Drv.C03
